@@ -130,6 +130,13 @@ func CoerceBool(v Value) bool {
 		if nilReceiver(vc, "String") {
 			return false
 		}
+		// A number or boolean with a String method (time.Month, an
+		// enumeration) keeps the truth value of the number or boolean.
+		if u, ok := underlying(v); ok {
+			if _, isString := u.(string); !isString {
+				return CoerceBool(u)
+			}
+		}
 		return len(vc.String()) > 0
 	case Number:
 		if nilReceiver(vc, "Number") {
@@ -230,6 +237,13 @@ func CoerceNumber(v Value) float64 {
 	case Stringer:
 		if nilReceiver(vc, "String") {
 			return 0
+		}
+		// A number or boolean with a String method (time.Month, an
+		// enumeration) is that number, not its name read as a number.
+		if u, ok := underlying(v); ok {
+			if _, isString := u.(string); !isString {
+				return CoerceNumber(u)
+			}
 		}
 		return stringToFloat(vc.String())
 	case string:
